@@ -51,6 +51,7 @@ def spec_of(coll):
 class Ctx:
     def __init__(self, pid, tier, seed):
         self.pid, self.tier, self.seed = pid, tier, seed
+        os.environ["VERIF_TIER_EFFECTIVE"] = "thorough" if tier == "thorough" else "quick"
         self.wd = workdir(pid, fresh=True)
         self.t0 = time.time()
         self.models = []       # results of TLC model runs
@@ -107,7 +108,7 @@ class Ctx:
         return paths
 
     # ---- conformance ----------------------------------------------------------------------
-    def trace_job(self, name, coll, driver, params, flags=(), timeout=900):
+    def trace_job(self, name, coll, driver, params, flags=(), timeout=None):
         """run a driver on the real code and let TLC validate the recorded trace"""
         out = self.path(name + ".ndjson")
         assert name not in self.names, f"job name {name} used twice"
@@ -854,8 +855,129 @@ def replay(path):
 
 
 def selftest():
-    log("selftest not built yet")
-    return 2
+    """Anti-vacuity: every predicate of the trace specifications must reject a trace in which the
+    field it speaks about has been corrupted (and accept the uncorrupted trace)."""
+    import copy
+    import random
+    build_harness()
+    wd = workdir("selftest", fresh=True)
+    rnd = random.Random(7)
+    runs = {
+        "keytree": ("keytree", "random", {"seed": 11, "keys": 6, "tspan": 4, "steps": 400, "seglen": 40}),
+        "keylist": ("keylist", "random", {"seed": 12, "keys": 6, "tspan": 4, "steps": 400, "seglen": 40}),
+        "settree": ("settree-str", "random", {"seed": 13, "keys": 8, "steps": 500, "seglen": 60}),
+        "maplist": ("maplist-i32", "random", {"seed": 14, "keys": 8, "steps": 400, "seglen": 60}),
+        "seg": ("seg-i32", "random", {"seed": 15, "lo": -7, "hi": 40, "steps": 300, "seglen": 50}),
+        "matrix": ("seg-i32", "matrix", {"from": 100, "to": 104}),
+        "layout": ("seg-i32", "layout", {"domains": "-70:229,0:31"}),
+    }
+    base = {}
+    for name, (coll, drv, params) in runs.items():
+        out = os.path.join(wd, name + ".ndjson")
+        run_harness(coll, drv, params, out)
+        v = tlc_trace(spec_of(coll), out, os.path.join(wd, "meta-" + name))
+        if v["viols"] or v["breaches"] or not v["accepted"]:
+            log(f"selftest: the uncorrupted trace {name} is not clean: {v['viols'][:2]} {v['breaches'][:2]}")
+            return 1
+        base[name] = (coll, [json.loads(x) for x in read_events(out)])
+
+    def find(evs, pred):
+        idx = [i for i, e in enumerate(evs) if pred(e)]
+        return rnd.choice(idx) if idx else None
+
+    def stored(e):
+        return [i for i, n in enumerate(e["snap"]["nd"]) if i not in e["snap"]["free"] and i != 0]
+
+    # (name, trace, expected tag, selector, mutation)
+    K = []
+    okq = lambda op: (lambda e: e.get("op") == op and e.get("out") == "ok")
+    K.append(("key result lt", "keytree", "RES_PRED", okq("lt"), lambda e: e.update(res=e["res"] + 1)))
+    K.append(("key result get", "keytree", "RES_GET", okq("get"), lambda e: e.update(res=12345)))
+    K.append(("key colour flipped", "keytree", "WF", lambda e: "snap" in e and e.get("ev") == "op" and len(stored(e)) >= 3,
+              lambda e: [n.__setitem__(3, 1) for n in e["snap"]["nd"]]))
+    K.append(("key free slot dropped", "keytree", "POOL", lambda e: "snap" in e and e.get("ev") == "op" and e["snap"]["free"],
+              lambda e: e["snap"]["free"].pop()))
+    K.append(("key free slot doubled", "keytree", "POOL", lambda e: "snap" in e and e.get("ev") == "op" and e["snap"]["free"],
+              lambda e: e["snap"]["free"].append(e["snap"]["free"][0])))
+    K.append(("key stored value changed", "keytree", "REFINE", lambda e: "snap" in e and e.get("ev") == "op" and e["snap"]["root"] >= 0 and e["snap"]["nd"][e["snap"]["root"]][6] > e.get("t", 10**6),
+              lambda e: e["snap"]["nd"][e["snap"]["root"]].__setitem__(5, 424242)))
+    K.append(("key expired key compared", "keytree", "CMPLIVE", lambda e: e.get("cmp") and "t" in e,
+              lambda e: e["cmp"][0].__setitem__(1, e["t"]) or e["cmp"][0].__setitem__(2, 0)))
+    K.append(("key call panicked", "keytree", "OUTCOME", okq("le"), lambda e: e.update(out="panic", msg="x")))
+    K.append(("key export element dropped", "keytree", "EXPORT", lambda e: e.get("op") == "export" and e.get("res"), lambda e: e["res"].pop()))
+    K.append(("key export capacity", "keytree", "EXPCAP", lambda e: e.get("op") == "export" and "vcap" in e, lambda e: e.update(vcap=100000)))
+    K.append(("key arena doubled", "keytree", "GROWTH", lambda e: "snap" in e and e.get("ev") == "op",
+              lambda e: (e["snap"]["free"].extend(range(len(e["snap"]["nd"]), len(e["snap"]["nd"]) + 90)),
+                         e["snap"]["nd"].extend([[0, 0, 0, 1, 0, 0, 0]] * 90))))
+    K.append(("list result le", "keylist", "RES_PRED", okq("le"), lambda e: e.update(res=e["res"] + 1)))
+    K.append(("list observation", "keylist", "REFINE", lambda e: e.get("obs"), lambda e: e["obs"].pop()))
+    K.append(("list export", "keylist", "EXPORT", lambda e: e.get("op") == "export" and e.get("res"), lambda e: e["res"].reverse() if len(e["res"]) > 1 else e["res"].pop()))
+    K.append(("set get payload", "settree", "RES_GET", lambda e: e.get("op") == "get" and e.get("res", -999999) != -999999, lambda e: e.update(res=e["res"] + 1)))
+    K.append(("set handle sentinel", "settree", "HANDLE", lambda e: e.get("op") == "fil" and e.get("res", -1) >= 0, lambda e: e.update(res=-1)))
+    K.append(("set handle reads other entry", "settree", "HANDLE", lambda e: e.get("op") == "fil" and e.get("res", -1) >= 0, lambda e: e.update(rk=e["rk"] + 1)))
+    K.append(("set step result", "settree", "STEP", lambda e: e.get("op") in ("after", "before") and e.get("res", -1) >= 0, lambda e: e.update(res=-1)))
+    K.append(("set is_empty", "settree", "EMPTY", okq("empty"), lambda e: e.update(res=1 - e["res"])))
+    K.append(("set link corrupted", "settree", "WF", lambda e: "snap" in e and e.get("ev") == "op" and len(stored(e)) >= 2,
+              lambda e: e["snap"]["nd"][e["snap"]["root"]].__setitem__(0, 3)))
+    K.append(("set stored payload", "settree", "REFINE", lambda e: e.get("op") == "ins" and "snap" in e,
+              lambda e: e["snap"]["nd"][e["snap"]["root"]].__setitem__(5, 777)))
+    K.append(("list handle position", "maplist", "HPOS", lambda e: e.get("op") == "fil" and e.get("res", -1) >= 1, lambda e: e.update(res=e["res"] - 1)))
+    K.append(("list get", "maplist", "RES_GET", lambda e: e.get("op") == "get" and e.get("res", -999999) != -999999, lambda e: e.update(res=5)))
+    K.append(("seg duplicate yield", "seg", "YIELD", lambda e: e.get("op") == "query" and e.get("res"), lambda e: e["res"].append(e["res"][0])))
+    K.append(("seg missing yield", "seg", "COMPLETE", lambda e: e.get("op") == "query" and e.get("res") and e["take"] < 0, lambda e: e["res"].pop()))
+    K.append(("seg expired copy kept", "seg", "COPIES", lambda e: e.get("op") == "query" and e.get("whole") == 1 and e.get("ch"),
+              lambda e: e["ch"][0][1].append([9999, e["t"] - 1])))
+    K.append(("seg copy missing at a place", "seg", "PLACES", lambda e: e.get("op") == "ins" and e.get("ch"),
+              lambda e: next(c for c in e["ch"] if any(x[0] == e["id"] for x in c[1]))[1].__setitem__(
+                  slice(None), [x for x in next(c for c in e["ch"] if any(x[0] == e["id"] for x in c[1]))[1] if x[0] != e["id"]] + [[9998, 50]])))
+    K.append(("seg matrix row", "matrix", "MATRIX", lambda e: e.get("op") == "matrix", lambda e: e["row"].pop()))
+    K.append(("seg point place", "layout", "LAYOUT", lambda e: e.get("op") == "point", lambda e: e.update(places=[e["places"][0] + 1])))
+    K.append(("seg chunk count", "layout", "LAYOUT", lambda e: e.get("ev") == "new" and e.get("built") == 1, lambda e: e.update(count=e["count"] + 1)))
+    K.append(("seg built flag", "layout", "LAYOUT", lambda e: e.get("ev") == "new" and e.get("built") == 1, lambda e: e.update(built=0, count=0)))
+
+    def one(k):
+        title, tname, tag, sel, mut = k
+        coll, evs = base[tname]
+        i = find(evs, sel)
+        if i is None:
+            return (title, tag, "NO-CANDIDATE", None)
+        evs2 = copy.deepcopy(evs)
+        mut(evs2[i])
+        out = os.path.join(wd, "corrupt-" + title.replace(" ", "_") + ".ndjson")
+        with open(out, "w") as f:
+            for e in evs2:
+                f.write(json.dumps(e, separators=(",", ":")) + "\n")
+        try:
+            v = tlc_trace(spec_of(coll), out, out + ".meta")
+        except ToolError as ex:
+            return (title, tag, "TOOL-ERROR " + str(ex)[:200], i + 1)
+        tags = {x["tag"] for x in v["viols"] if x["l"] >= i + 1}
+        return (title, tag, "rejected" if tag in tags else f"NOT-REJECTED (got {sorted(tags)})", i + 1)
+
+    with ThreadPoolExecutor(max_workers=6) as ex:
+        results = list(ex.map(one, K))
+    bad = 0
+    for title, tag, verdict, at in results:
+        log(f"  {title:32s} expects {tag:9s} at event {at}: {verdict}")
+        bad += verdict != "rejected"
+    # binding: without the snapshot the structural predicates have nothing to speak about
+    coll, evs = base["keytree"]
+    evs2 = copy.deepcopy(evs)
+    for e in evs2:
+        if e.get("ev") == "op":
+            e.pop("snap", None)
+    out = os.path.join(wd, "nosnap.ndjson")
+    with open(out, "w") as f:
+        for e in evs2:
+            f.write(json.dumps(e, separators=(",", ":")) + "\n")
+    v = tlc_trace("TraceKey", out, out + ".meta")
+    log(f"  snapshots removed from all events: {len(v['viols'])} predicate violations reported (binding is not vacuous)" )
+    bad += 0 if v["viols"] else 1
+    log(f"selftest: {len(K) + 1 - bad}/{len(K) + 1} corruptions rejected")
+    with open(os.path.join(VERIF, "evidence", "selftest.txt"), "w") as f:
+        for title, tag, verdict, at in results:
+            f.write(f"{title}\t{tag}\t{verdict}\n")
+    return 0 if bad == 0 else 1
 
 
 import subprocess  # noqa: E402
